@@ -117,6 +117,11 @@ func declName(d ast.Decl) string {
 // c07Exec runs goose on one pattern and reads the result (no verdicts yet).
 func c07Exec(bin, modDir, outDir string, env []string, flags []string, pattern string) *c07Outcome {
 	res := runGoose(bin, modDir, outDir, 3*time.Minute, env, flags, pattern)
+	if res.Code == 1 && strings.Contains(res.Stderr, "patterns matched no packages") {
+		// the go command rewrites go.mod on the first loads of a fresh module; a concurrent load can see nothing: once more
+		time.Sleep(300 * time.Millisecond)
+		res = runGoose(bin, modDir, outDir, 3*time.Minute, env, flags, pattern)
+	}
 	o := &c07Outcome{Exit: res.Code, Stderr: ansiRe.ReplaceAllString(res.Stderr, ""), TimedOut: res.TimedOut}
 	if res.TimedOut {
 		return o
@@ -408,4 +413,9 @@ func goListStd() ([]string, error) {
 func goEnvVar(name string) string {
 	res := core.Exec("", core.GoEnv(), time.Minute, "", "go", "env", name)
 	return strings.TrimSpace(res.Stdout)
+}
+
+// settleModule lets the go command complete go.mod/go.sum of a fresh scratch module before parallel loads start.
+func settleModule(dir string) {
+	core.Exec(dir, core.GoEnv(), 2*time.Minute, "", "go", "list", "-e", "-tags", "goose", "./...")
 }
